@@ -199,6 +199,14 @@ def check(run):
             runs += [[i, 0], [i, 1 + run.rng.randrange(len(OPTS) - 1)]]
         else:
             runs.append([i, run.rng.randrange(len(OPTS))])     # quick: every case once, option set drawn by the seed
+    # thorough builds run under -race: keep every special-family build, sample the rest down to a bounded number
+    CAP = 14000
+    if thorough and len(runs) > CAP:
+        keep = [r for r in runs if r[0] in special]
+        rest = [r for r in runs if r[0] not in special]
+        run.rng.shuffle(rest)
+        runs = keep + rest[: max(0, CAP - len(keep))]
+        run.cov["stages"].append({"stage": "replay-sample", "kept": len(runs), "of": len(keep) + len(rest)})
     out = os.path.join(run.scratch, "sort_events.ndjson")
     inp = os.path.join(run.scratch, "sort_in.json")
     write_json(inp, {"cases": cases, "opts": OPTS, "runs": runs, "out": out})
@@ -231,7 +239,7 @@ def check(run):
                               "builds_with_shared_streams": len(shared), "notfound_aborts": sum(1 for e in events if e["err"] == "notfound"),
                               "special_family_cases": len(special), "loop_aborts": sum(1 for e in events if e["err"] == "loop")})
     run.add_samples([brief(e) for e in (shared[:1] + [e for e in nontriv if e["opt"]["workers"] > 1 and len(e["order"]) > 3][:1])], limit=2)
-    run.cov["exhaustive"] = ok == len(events) and not odd
+    run.cov["exhaustive"] = ok == len(events) and not odd and not any(st.get("stage") == "replay-sample" for st in run.cov["stages"])
 
 
 if __name__ == "__main__":
